@@ -1444,7 +1444,7 @@ def _(s):
 @const("eco_info_members", "List (String × String × String)", "games/eco/types.rs", "struct Info: (serde rename = JSON member, field, type), in declaration order")
 def _(s):
     b = block(s, r"\bpub\s+struct\s+Info\s*\{", "struct Info")
-    r = need_all(r"#\[serde\(rename\s*=\s*%s\)\]\s*pub\s+(\w+)\s*:\s*([^,\n]+)," % STR, b, "renamed fields", at_least=1)
+    r = need_all(r"#\[serde\(rename\s*=\s*%s\)\]\s*pub\s+(\w+)\s*:\s*([^\n]+?),\s*\n" % STR, b, "renamed fields", at_least=1, flags=0)
     fields = re.findall(r"\bpub\s+(\w+)\s*:", b)
     if len(fields) != len(r):
         raise ConstError(f"struct Info: {len(fields)} fields but {len(r)} `#[serde(rename = …)]` attributes")
